@@ -202,6 +202,7 @@ fn zod_field(types_ts: &str, name: &str, key: &str) -> Option<String> {
 
 /// Tauri's command macro: lowerCamelCase of the Rust parameter name (words = non-empty pieces between underscores)
 fn lower_camel(name: &str) -> String {
+    let name = name.strip_prefix("r#").unwrap_or(name);
     words_of_field(name).iter().enumerate().map(|(i, w)| if i == 0 { w.clone() } else { cap(w) }).collect()
 }
 
@@ -249,7 +250,7 @@ fn main() {
             src.push_str(&format!("#[tauri::command]\npub fn cmd_{}{}(first_arg: String, {}, second_arg: Option<u32>, on_event: Channel<u32>) -> u32 {{ 0 }}\n", i, generic, inj));
         }
         // parameter-name shapes: digits after underscores, doubled / leading underscores, one-letter words, non-ASCII
-        let shapes = ["pos_2d", "size_3d_px", "on_2nd_pass", "line_1_start", "v_2", "_lead", "dou__ble", "x", "http_2_server", "a_b_c", "über_wert", "trailing_", "user_id"];
+        let shapes = ["pos_2d", "size_3d_px", "on_2nd_pass", "line_1_start", "v_2", "_lead", "dou__ble", "x", "http_2_server", "a_b_c", "über_wert", "trailing_", "user_id", "r#type", "r#in_place"];
         src.push_str(&format!("#[tauri::command]\npub fn shapes({}) -> u32 {{ 0 }}\n", shapes.iter().map(|n| format!("{}: u32", n)).collect::<Vec<_>>().join(", ")));
         let dir = root.join("inject/src");
         write_files(&dir, &[("lib.rs".to_string(), src)]);
@@ -316,6 +317,7 @@ fn main() {
             ("default_attr_then_rename", "#[serde(default)]\n    #[serde(rename = \"late\")]", Some("late")),
             ("rename_then_doc_and_allow", "#[serde(rename = \"documented\")]\n    /// a doc comment\n    #[allow(dead_code)]", Some("documented")),
             ("rename_upper", "#[serde(rename = \"HTTPCode\")]", Some("HTTPCode")),
+            ("r#type", "", Some("type")),
             ("rename_digit", "#[serde(rename = \"2fa\")]", Some("2fa")),
             ("rename_space", "#[serde(rename = \"display name\")]", Some("display name")),
         ];
@@ -337,7 +339,7 @@ fn main() {
                 body.push_str(&format!("    pub {}: {},\n", fname, ty));
                 if let Some(w) = want {
                     let explicit = attr.contains("rename = ");
-                    let key = if explicit || conv.is_empty() { w.to_string() } else { apply_rule(conv, fname, false) };
+                    let key = if explicit || conv.is_empty() { w.to_string() } else { apply_rule(conv, fname.strip_prefix("r#").unwrap_or(fname), false) };
                     keys.push((key, false));
                 }
             }
@@ -449,6 +451,9 @@ fn main() {
             // one name emitted at several sites: same payload type, different payload types
             ("r-repeat", "app.emit(\"r-repeat\", 1u32).ok(); window.emit(\"r-repeat\", 2u32).ok();"),
             ("r-mixed", "app.emit(\"r-mixed\", 1u32).ok(); app.emit(\"r-mixed\", \"text\").ok();"),
+            // distinct names whose natural listener names coincide
+            ("c-user-login", "app.emit(\"c-user-login\", 1u32).ok();"), ("c_user_login", "app.emit(\"c_user_login\", 1u32).ok();"),
+            ("c:user:login", "app.emit(\"c:user:login\", 1u32).ok();"), ("CUserLogin", "app.emit(\"CUserLogin\", 1u32).ok();"), ("c-user-login2", "app.emit(\"c-user-login2\", 1u32).ok();"),
         ];
         let extra_fns = "pub fn notify<R: tauri::Runtime, E: Emitter<R>>(app: &E) { app.emit(\"g-generic\", 1u32).ok(); }\n\
             pub fn arc(window: std::sync::Arc<tauri::WebviewWindow>) { window.emit(\"g-arc\", 1u32).ok(); }\n\
@@ -485,6 +490,15 @@ fn main() {
                     let k = ev.matches(&format!("('{}',", n)).count() + ev.matches(&format!("(\"{}\",", n)).count();
                     if k != 1 { return Err(format!("events.ts has {} listeners subscribed to '{}', expected exactly one", k, n)); }
                 }
+                let mut fnames = BTreeSet::new();
+                for l in ev.lines() {
+                    if let Some(rest) = l.trim_start().strip_prefix("export async function ") {
+                        let name: String = rest.chars().take_while(|c| c.is_alphanumeric() || *c == '_' || *c == '$').collect();
+                        if name.is_empty() || name.chars().next().unwrap().is_numeric() { return Err(format!("listener name in `{}` is not an identifier", l.trim())); }
+                        if !fnames.insert(name.clone()) { return Err(format!("listener function `{}` is declared twice", name)); }
+                    }
+                }
+                if fnames.len() != sites.len() { return Err(format!("{} listener functions for {} distinct event names", fnames.len(), sites.len())); }
                 Ok("ok".into())
             });
         }
@@ -594,15 +608,24 @@ fn main() {
             #[derive(Serialize, Deserialize)]\npub struct Ping;\n\
             #[derive(Serialize, Deserialize)]\npub struct AllSkipped {{ #[serde(skip)] pub a: u32 }}\n\
             #[derive(Serialize, Deserialize)]\npub struct Item {{ pub id: u32, pub tags: Vec<Option<String>>, pub meta: HashMap<String, Vec<u32>>, pub pair: (u32, String), pub maybe: Option<Ping> }}\n\
-            #[derive(Serialize, Deserialize)]\npub enum Level {{ Low, High }}\n\
+            #[derive(Serialize, Deserialize, Clone)]\npub enum Level {{ Low, High }}\n\
             #[tauri::command]\npub fn ping(p: Ping, s: AllSkipped) -> Ping {{ p }}\n\
             #[tauri::command]\npub fn items(level: Level, first: Option<Item>) -> Result<Vec<Option<Item>>, String> {{ Ok(vec![]) }}\n\
-            #[tauri::command]\npub fn grid(app: tauri::AppHandle) -> Option<Vec<Vec<Option<Item>>>> {{ app.emit(\"grid:done\", 1u32).ok(); None }}\n", HDR);
+            #[tauri::command]\npub fn grid(app: tauri::AppHandle) -> Option<Vec<Vec<Option<Item>>>> {{ app.emit(\"grid:done\", 1u32).ok(); None }}\n\
+            #[tauri::command]\npub fn level(app: tauri::AppHandle, l: Level) -> Level {{ app.emit(\"level:set\", l.clone()).ok(); l }}\n\
+            #[tauri::command]\npub fn levels() -> Result<Vec<Level>, String> {{ Ok(vec![]) }}\n\
+            #[tauri::command]\npub fn qualified(i: crate::Item, l: std::option::Option<self::Level>) -> std::result::Result<Vec<crate::Level>, String> {{ Ok(vec![]) }}\n\
+            #[derive(Serialize, Deserialize)]\npub struct Holder {{ pub item: crate::Item, pub by_level: std::collections::HashMap<String, crate::Level> }}\n\
+            #[tauri::command]\npub fn holder() -> crate::Holder {{ todo!() }}\n\
+            #[tauri::command]\npub fn delete(id: u32) -> u32 {{ id }}\n\
+            #[tauri::command]\npub fn new() -> u32 {{ 0 }}\n\
+            #[tauri::command]\npub fn default() -> u32 {{ 0 }}\n\
+            #[tauri::command]\npub fn import(path: String) -> u32 {{ 0 }}\n", HDR);
         let dir = root.join("modes/src");
         write_files(&dir, &[("lib.rs".to_string(), src)]);
         let none = generate(&dir, &root.join("modes/out_none"), "none");
         let zod = generate(&dir, &root.join("modes/out_zod"), "zod");
-        for name in ["Ping", "AllSkipped", "Item", "PingParams", "ItemsParams"] {
+        for name in ["Ping", "AllSkipped", "Item", "Holder", "PingParams", "ItemsParams", "QualifiedParams"] {
             rep.case("both_modes_same_names_and_keys", &format!("type {}", name), &|| {
                 let n = none.as_ref().map_err(|e| e.clone())?.get("types.ts").ok_or("no types.ts (none)")?;
                 let z = zod.as_ref().map_err(|e| e.clone())?.get("types.ts").ok_or("no types.ts (zod)")?;
@@ -616,7 +639,27 @@ fn main() {
                 lexical_wellformed(res.as_ref().map_err(|e| e.clone())?)
             });
             rep.case("type_references_resolve", &format!("project=modes mode={}", mname), &|| {
-                references_resolve(res.as_ref().map_err(|e| e.clone())?, &["Ping", "AllSkipped", "Item", "Level"])
+                references_resolve(res.as_ref().map_err(|e| e.clone())?, &["Ping", "AllSkipped", "Item", "Level", "Holder"])
+            });
+            rep.case("declared_function_names_are_legal", &format!("project=modes mode={}", mname), &|| {
+                let files = res.as_ref().map_err(|e| e.clone())?;
+                const RESERVED: [&str; 46] = ["break", "case", "catch", "class", "const", "continue", "debugger", "default", "delete", "do", "else", "enum", "export", "extends", "false", "finally", "for", "function", "if", "import",
+                    "in", "instanceof", "new", "null", "return", "super", "switch", "this", "throw", "true", "try", "typeof", "var", "void", "while", "with", "implements", "interface", "let", "package", "private", "protected", "public", "static", "yield", "await"];
+                let mut n = 0;
+                for (f, text) in files {
+                    for l in text.lines() {
+                        let t = l.trim_start();
+                        let rest = t.strip_prefix("export async function ").or_else(|| t.strip_prefix("export function ")).or_else(|| t.strip_prefix("async function ")).or_else(|| t.strip_prefix("function "));
+                        if let Some(rest) = rest {
+                            let name: String = rest.chars().take_while(|c| *c != '(' && *c != '<' && *c != ' ').collect();
+                            let ident = name.chars().next().map_or(false, |c| c.is_alphabetic() || c == '_' || c == '$') && name.chars().all(|c| c.is_alphanumeric() || c == '_' || c == '$');
+                            if !ident { return Err(format!("{}: function name `{}` is not an identifier", f, name)); }
+                            if RESERVED.contains(&name.as_str()) || name == "arguments" || name == "eval" { return Err(format!("{}: function name `{}` is a reserved word", f, name)); }
+                            n += 1;
+                        }
+                    }
+                }
+                Ok(format!("{} functions", n))
             });
         }
     }
